@@ -60,6 +60,8 @@ def precheck(case, obs):
     for k, e in enumerate(saves):
         if not data_consistent(e, last=(fin and k == len(saves) - 1)):
             return {"agree": True, "prop_ok": False}
+    if B.clock_moved_while_paused(obs):        # the clock value written is the one the pause froze
+        return {"agree": True, "prop_ok": False}
     return None
 
 
@@ -71,6 +73,8 @@ def nontrivial(case, obs):
 def signature(case, obs):
     if "error" in obs or "crash" in obs:
         return "harness-error"
+    if B.clock_moved_while_paused(obs):
+        return "clock-moves-during-the-save-pause"
     saves = save_infos(obs)
     fin = B.complete(obs)
     for k, e in enumerate(saves):
